@@ -4,7 +4,7 @@
 From Coq Require Import QArith ZArith NArith.
 From Steady Require Import SteadyLoop SteadyHist2.
 Definition gen_ss_facts : ss_facts :=
-  mkSSFacts 100%Z 1000%N CmpLt NormL2 PrevCopy RelUnknown ExhaustFail SuccChecked false.
+  mkSSFacts 100%Z 1000%N CmpLt NormL2 PrevCopy RelDivPrev ExhaustFail SuccChecked true.
 Definition gen_plumb_facts : plumb_facts :=
   mkPlumb true true (4722366482869645 # 4722366482869645213696)%Q.
 Definition gen_hist_facts : hist_facts :=
